@@ -896,9 +896,81 @@ func nonFinite(r *vproto.Rng, n int) {
 	}
 }
 
+// overflowCases: `pt ovf-…` lines — finite coordinates k·2^(1024-b), |k| < 2^b (b = 3, 4): exactly representable;
+// every coordinate difference is a multiple of the same power of two and is either exact or, at 2^1024 and above,
+// overflows to ±Inf. Floating-point polygons with grid query points (on an edge or far from it): inside the property's
+// quantifier, judged by the Spec on the exact values; the judge also reports what the source rendered with overflowing
+// `-` and `/` (GenOL) answers.
+func overflowCases(r *vproto.Rng, n int) {
+	for _, b := range []int{3, 4} {
+		K := 1<<uint(b) - 1
+		ex := 1024 - b
+		sc := func(g geom.Geom) geom.Geom { return scaleGeom(g, ex) }
+		k := float64(K)
+		k1 := k - 1
+		witness := ring{pt(-k1, -k1), pt(k1, k1), pt(-k1, k1)}
+		sq := ring{pt(-k, -k), pt(k, -k), pt(k, k), pt(-k, k)}
+		hole := ring{pt(-2, -2), pt(-2, 2), pt(2, 2), pt(2, -2)}
+		dia := ring{pt(0, -k), pt(k, 0), pt(0, k), pt(-k, 0)}
+		small := ring{pt(0, 0), pt(3, 0), pt(0, 3)}
+		bow := ring{pt(-k, -k), pt(k, k), pt(k, -k), pt(-k, k)}
+		fixed := []geom.Geom{poly(witness), poly(closed(witness)), poly(sq, hole), poly(closed(sq)), poly(dia), poly(small), poly(bow),
+			geom.MultiPolygon{poly(dia), poly(hole)}, &geom.Bounds{Min: pt(-k, -k), Max: pt(k, k)}}
+		for _, g := range fixed {
+			for x := -K; x <= K; x++ {
+				for y := -K; y <= K; y++ {
+					if b == 4 && (x+y)%3 != 0 { // a third of the 31x31 grid
+						continue
+					}
+					emitPt("ovf-fixed", scalePt(pt(float64(x), float64(y)), ex), sc(g))
+				}
+			}
+		}
+		c := func() float64 { return float64(r.Range(-K, K)) }
+		for i := 0; i < n; i++ {
+			nv := 3 + r.Intn(3)
+			var rg ring
+			for j := 0; j < nv; j++ {
+				rg = append(rg, pt(c(), c()))
+			}
+			if r.Intn(3) == 0 {
+				rg = closed(rg)
+			}
+			var g geom.Geom = poly(rg)
+			switch r.Intn(4) {
+			case 0:
+				g = poly(rg, hole)
+			case 1:
+				g = geom.MultiPolygon{poly(rg), poly(dia)}
+			}
+			for j := 0; j < 24; j++ {
+				q := pt(c(), c())
+				if j%4 == 0 { // a vertex or an edge midpoint (when on the grid)
+					a, bb := rg[r.Intn(len(rg))], rg[r.Intn(len(rg))]
+					if m := pt((a.X+bb.X)/2, (a.Y+bb.Y)/2); m.X == math.Trunc(m.X) && m.Y == math.Trunc(m.Y) {
+						q = m
+					} else {
+						q = a
+					}
+				}
+				emitPt("ovf-rand", scalePt(q, ex), sc(g))
+			}
+		}
+	}
+}
+
 func gen(seed uint64, tier string) {
 	r := vproto.NewRng(seed)
 	fixedCorpus()
+	// the ovf family fires on the unchanged tree (known finding "OVERFLOW of coordinate differences", findings/C02.json);
+	// checks/C02.py sets C02_OVF=0 as long as the committed KNOWN_FINDINGS.json does not carry that entry yet
+	if os.Getenv("C02_OVF") != "0" {
+		if tier == "thorough" {
+			overflowCases(vproto.NewRng(seed+78), 400)
+		} else {
+			overflowCases(vproto.NewRng(seed+78), 40)
+		}
+	}
 	if tier == "thorough" {
 		nonFinite(vproto.NewRng(seed+77), 3000)
 	} else {
